@@ -43,6 +43,23 @@ COMMAND_BYTES = 7
 PADDING_FIELD = "padding"
 
 
+def check_int_range(value, bits: int, signed: bool, what: str) -> None:
+    """Raise if `value` cannot be represented in a field of `bits` bits.
+
+    ctypes silently truncates out-of-range integers, which would make an
+    operand decode as a different, valid-looking one."""
+    if not isinstance(value, int):
+        return
+    if signed:
+        low, high = -(2 ** (bits - 1)), 2 ** (bits - 1) - 1
+    else:
+        low, high = 0, 2**bits - 1
+    if not (low <= value <= high):
+        raise ValueError(
+            f"{what} {value} cannot be encoded (allowed range is {low} to {high})"
+        )
+
+
 class OptionalInt(ctypes.Structure):
     _fields_ = [
         ("type", ctypes.c_uint8),
@@ -118,12 +135,30 @@ class Command(ctypes.Structure):
     ]
 
     def __init__(self, *args, **kwargs):
+        self._check_field_ranges(kwargs)
         try:
             super().__init__(*args, **kwargs)
         except TypeError as err:
             raise TypeError(
                 f"command {self.__class__.__name__} could not be created, since: {err}"
             )
+
+    @classmethod
+    def _check_field_ranges(cls, kwargs):
+        for klass in cls.__mro__:
+            for field in klass.__dict__.get("_fields_", []):
+                name, ctype = field[0], field[1]
+                if (
+                    name in kwargs
+                    and isinstance(getattr(ctype, "_type_", None), str)
+                    and ctype._type_ in "bBhHiIlLqQ"
+                ):
+                    check_int_range(
+                        kwargs[name],
+                        bits=ctypes.sizeof(ctype) * 8,
+                        signed=ctype._type_.islower(),
+                        what=f"{name} of {cls.__name__}",
+                    )
 
 
 def add_padding(fields):
